@@ -157,12 +157,17 @@ func (c *caseRun) sweep(rnd *hk.Rand) {
 			c.visibility(k, "fetch", want, got)
 			v, present = c.ref[k]
 		}
-		wantS := "notexist"
+		// StatBlobs of one ref: exactly one callback for a visible blob, none otherwise
+		wantS := "-"
 		if present {
-			wantS = fmt.Sprint(len(v))
+			wantS = fmt.Sprintf("%s:%d", k, len(v))
 		}
 		if got := c.op("stat " + k); got != wantS {
-			c.visibility(k, "stat", wantS, got)
+			if strings.Count(got, k) > 1 {
+				c.fail("stat-reports-blob-twice", "StatBlobs(["+k+"]) called back more than once", wantS, got)
+			} else {
+				c.visibility(k, "stat", wantS, got)
+			}
 			v, present = c.ref[k]
 		}
 		if present && rnd.Chance(40) {
@@ -183,6 +188,7 @@ func (c *caseRun) sweep(rnd *hk.Rand) {
 			}
 		}
 	}
+	c.checkStatAll(rnd, keys)
 	c.checkEnum("-", 100000)
 	if len(keys) > 0 && rnd.Chance(50) {
 		c.checkEnum(hk.Hex([]byte(keys[rnd.Intn(len(keys))])), 1+rnd.Intn(4))
@@ -221,6 +227,47 @@ func (c *caseRun) sweep(rnd *hk.Rand) {
 			}
 		}
 	}
+}
+
+// checkStatAll: one StatBlobs call for every announced ref (in a random order): every visible blob must
+// be reported exactly once – the callbacks are compared as a multiset, not as a set.
+func (c *caseRun) checkStatAll(rnd *hk.Rand, keys []string) {
+	if len(keys) == 0 {
+		return
+	}
+	req := append([]string(nil), keys...)
+	for i := len(req) - 1; i > 0; i-- {
+		j := rnd.Intn(i + 1)
+		req[i], req[j] = req[j], req[i]
+	}
+	var l []string
+	for _, k := range keys { // keys is sorted
+		if v, ok := c.ref[k]; ok {
+			l = append(l, fmt.Sprintf("%s:%d", k, len(v)))
+		}
+	}
+	want := "-"
+	if len(l) > 0 {
+		want = strings.Join(l, ",")
+	}
+	got := c.op("stat " + strings.Join(req, " "))
+	if got == want {
+		return
+	}
+	seen := map[string]int{}
+	if got != "-" && got != "err" {
+		for _, e := range strings.Split(got, ",") {
+			k, _, _ := strings.Cut(e, ":")
+			seen[k]++
+		}
+	}
+	for _, k := range keys {
+		if seen[k] > 1 {
+			c.fail("stat-reports-blob-twice", fmt.Sprintf("StatBlobs of %d refs called back %d times for %s", len(req), seen[k], k), want, got)
+			return
+		}
+	}
+	c.fail("visibility-stat-batch", "stat of all announced refs", want, got)
 }
 
 func (c *caseRun) checkEnum(afterHex string, limit int) {
@@ -278,7 +325,7 @@ func (c *caseRun) checkEnum(afterHex string, limit int) {
 // visibility handles a blob whose answer differs from the reference map.
 func (c *caseRun) visibility(k, op, want, got string) {
 	_, present := c.ref[k]
-	if !present && c.rmPacked[k] && c.recov && got != "notexist" && got != "err" {
+	if !present && c.rmPacked[k] && c.recov && got != "notexist" && got != "-" && got != "err" {
 		c.fail("recovery-resurrects-removed-blob", op+" of "+k+" (removed, then recovery from the zips)", want, got)
 		c.ref[k] = c.tbl[k].data // follow the implementation so that the rest of the case stays meaningful
 		delete(c.rmPacked, k)
@@ -1034,7 +1081,7 @@ func malformed(r *hk.Run, rnd *hk.Rand) {
 		"recv " + good + " 00 bytes:B:" + good + ":0", "recv sha224-xyz 00 raw", "recv " + good + " 00 raw k=", "recv " + good + " 00 raw k=1.2.3",
 		"recv " + good + " 00 raw k=1 k=2", "recv " + good + " 00 raw whole=" + good, "recv " + good + " 00 raw whole=" + good + " zips=a:b",
 		"fetch", "fetch x", "fetch " + good + " " + good, "sub " + good + " 1", "sub " + good + " a 1", "stat", "enum", "enum zz 1", "enum - x",
-		"rm", "rm x", "restart", "restart slow", "whole " + good, "whole " + good + " x", "dump x", "frobnicate", "cfg", "cfg x",
+		"stat x", "stat " + good + " x", "rm", "rm x", "restart", "restart slow", "whole " + good, "whole " + good + " x", "dump x", "frobnicate", "cfg", "cfg x",
 		"fetch " + good, "stat " + good, "whole " + good + " 0", "enum - 5", "sub " + good + " 0 5", "rm " + good, "dump",
 	}
 	for _, l := range lines {
@@ -1118,7 +1165,7 @@ func probes(r *hk.Run) {
 	// F-C04-2 (fixed): remove of a blob that is packed and still loose
 	o2 := run(w["F-C04-2"])
 	n := len(o2)
-	r.Probe("F-C04-2", o2[n-3] != "notexist" || o2[n-2] != "notexist", "pack cut after its meta commit, rm chunk -> fetch="+o2[n-3]+" stat="+o2[n-2])
+	r.Probe("F-C04-2", o2[n-3] != "notexist" || o2[n-2] != "-", "pack cut after its meta commit, rm chunk -> fetch="+o2[n-3]+" stat="+o2[n-2])
 	// F-C04-3 (known): recovery from the zips brings removed blobs back
 	o3 := run(w["F-C04-3"])
 	n = len(o3)
